@@ -366,6 +366,11 @@ struct C02 {
         }
         if (renderable) {
             auto p = c.parser->Parse(toks);
+            if (p.status == Teakra::Parser::Opcode::Invalid && di.row >= 0) {
+                Fail(Fmt("form:assembler-unknown:%s", di.name), Fmt("opcode %04X ('%s', row %d/'%s') is an instruction for the decoder, the interpreter and the disassembler, but the "
+                                                                  "assembler does not know its text", o, Join(toks).c_str(), di.row, di.name), rp);
+                return;
+            }
             if (p.status != Teakra::Parser::Opcode::Invalid) {
                 DecodeInfo dp;
                 c.impl.api->decode(p.opcode, &dp);
@@ -462,6 +467,69 @@ struct C02 {
             }
         digests.insert(Mix(o) ^ (u64)di.row);
     }
+
+    // (e) operand words inside hardware loops: stepping a loop program cycle by cycle, the program counter at every instruction boundary is the
+    // address of a first word, never of an operand word (bkrep's end-address word, the immediate of a two-word instruction)
+    void LoopProgram(int id, int cnt, int n) {
+        const u32 pc0 = 0x1000;
+        std::vector<u16> w;
+        std::set<u32> operand;
+        auto two = [&](u16 a, u16 b) { w.push_back(a); operand.insert(pc0 + (u32)w.size()); w.push_back(b); };
+        int expected = 0;
+        switch (id) {
+        case 0: // bkrep #cnt { inc a0 ; rep #n ; inc a1 }   (a repeated instruction ends the block)
+            two((u16)(0x5C00 | cnt), (u16)(pc0 + 4));
+            w.push_back(0x67D0), w.push_back((u16)(0x0C00 | n)), w.push_back(0x77D0);
+            expected = 1 + (cnt + 1) * (2 + n + 1);
+            break;
+        case 1: // bkrep #cnt { inc a0 ; add ##imm16,a0 }   (a two-word instruction ends the block)
+            two((u16)(0x5C00 | cnt), (u16)(pc0 + 4));
+            w.push_back(0x67D0);
+            two(0x86C0, 0x0123);
+            expected = 1 + (cnt + 1) * 2;
+            break;
+        case 2: // rep #n ; inc a0 ; add ##imm16,a0
+            w.push_back((u16)(0x0C00 | n)), w.push_back(0x67D0);
+            two(0x86C0, 0x0123);
+            expected = 1 + (n + 1) + 1;
+            break;
+        default: // bkrep #cnt { bkrep #n { add ##imm16,a0 ; inc a1 } ; rep #n ; inc a0 }
+            two((u16)(0x5C00 | cnt), (u16)(pc0 + 8));
+            two((u16)(0x5C00 | n), (u16)(pc0 + 6));
+            two(0x86C0, 0x0123);
+            w.push_back(0x77D0), w.push_back((u16)(0x0C00 | n)), w.push_back(0x67D0);
+            expected = 1 + (cnt + 1) * (1 + (n + 1) * 2 + 1 + n + 1);
+            break;
+        }
+        u32 end = pc0 + (u32)w.size();
+        for (int i = 0; i < 4; ++i)
+            w.push_back(0x0000);
+        VState s = c.states[0];
+        s.pc = pc0, s.rep = 0, s.lp = 0, s.bcn = 0, s.ie = 0;
+        std::string rp = Fmt("c02 loop %d %d %d", id, cnt, n);
+        ++res.states;
+        for (int k = 1; k <= expected + 1; ++k) {
+            VState out;
+            RunResult rr;
+            c.impl.api->run(c.impl.m, &s, w.data(), (int)w.size(), k, &out, &rr);
+            ++res.evaluations, ++res.transitions, ++res.traces_validated;
+            if (rr.outcome != OUT_OK) {
+                Fail(Fmt("loop-program:%d:outcome", id), Fmt("loop program %d (count %d, rep %d) ends with outcome %d after %d cycles", id, cnt, n, rr.outcome, k), rp);
+                return;
+            }
+            if (operand.count(out.pc)) {
+                Fail(Fmt("operand-executed:loop-program-%d", id), Fmt("loop program %d (block count %d, rep count %d): after %d cycles the program counter is %05X, the address of an "
+                                                                    "operand word (%04X) - it is about to be executed as an instruction", id, cnt, n, k, out.pc, w[out.pc - pc0]), rp);
+                return;
+            }
+            if (k == expected && out.pc != end) {
+                Fail(Fmt("loop-program:%d:length", id), Fmt("loop program %d (block count %d, rep count %d): after %d cycles pc=%05X, expected the first word behind the loop %05X", id, cnt, n,
+                                                            k, out.pc, end), rp);
+                return;
+            }
+        }
+        digests.insert(Mix(id * 100 + cnt * 10 + n + 0x777));
+    }
 };
 
 inline int Replay(const std::string& r, Result& res, const std::string& repo) {
@@ -481,6 +549,12 @@ inline int Replay(const std::string& r, Result& res, const std::string& repo) {
     } else if (std::sscanf(r.c_str(), "c02 op %u", &a) == 1) {
         C02 e(c, res);
         e.Opcode((u16)a);
+    } else if (r.rfind("c02 loop ", 0) == 0) {
+        int id, cnt, n;
+        if (std::sscanf(r.c_str(), "c02 loop %d %d %d", &id, &cnt, &n) != 3)
+            return 2;
+        C02 e(c, res);
+        e.LoopProgram(id, cnt, n);
     } else {
         return 2;
     }
@@ -567,6 +641,12 @@ int main(int argc, char** argv) {
                     C02 e(c, local);
                     for (u32 o = idx; o < 0x10000; o += cnt)
                         e.Opcode((u16)o);
+                    int job = 0;
+                    for (int id = 0; id < 4; ++id)
+                        for (int bc = 0; bc < 4; ++bc)
+                            for (int n = 0; n < 4; ++n)
+                                if (job++ % cnt == idx)
+                                    e.LoopProgram(id, bc, n);
                     blk.evaluations = local.evaluations, blk.transitions = local.transitions, blk.traces = local.traces_validated, blk.states = local.states;
                     blk.distinct = e.digests.size();
                 },
@@ -575,9 +655,10 @@ int main(int argc, char** argv) {
                    "row and on the need for a second word; one Run(1) at 4 start addresses: first program access at pc, second access is the operand word at pc+1 "
                    "exactly for two-word rows, pc advances by the length, and the cycle after a two-word instruction behaves like the instruction behind the operand "
                    "word; for every bit the table TEXT marks Unused<>: the flipped opcode decodes to the same row with the same operands, prints the same tokens and "
-                   "executes identically";
-        res.bound = "all 65536 opcodes x start addresses {0, 0x0FFF, 0x1FFFE, 0x3FFF0}; all unused bits of all rows";
-        res.assumptions = {"rep over a two-word instruction is outside the statement (rep inactive in every run)",
+                   "executes identically; every opcode the decoder knows and the disassembler renders is known to the assembler; 64 loop programs (block repeat x "
+                   "single repeat x two-word instructions, counts 0..3) stepped cycle by cycle: the program counter never rests on an operand word";
+        res.bound = "all 65536 opcodes x start addresses {0, 0x0FFF, 0x1FFFE, 0x3FFF0}; all unused bits of all rows; 4 loop program shapes x counts {0..3}^2";
+        res.assumptions = {"rep over a two-word instruction is outside the statement",
                            "Unused<> positions are parsed from decoder.h's table text (row i of the text = row i of the table object, names cross-checked)"};
         res.AddSample("opcode D3C8 (mov repc,[r7+imm16]; unused bits 0,1,2): D3C9..D3CF decode to the same row, print and execute identically");
         res.AddSample("opcode 5E00 at 0x1FFFE: accesses [1FFFE, 1FFFF(operand), ...], pc -> 0x20000");
